@@ -224,3 +224,8 @@ def run(chk, S: Session):
 
     rb = chk.rule("R-C19-B", "the Taylor-point routine chosen by the caller reaches the constraint that linearises there: constraint_ode_ts1 forwards taylor_point (rule of C11)", floor=1)
     borrow(chk, S, rb, "C11", lambda r, c: r == "R-C11-4" and "constraint_ode_ts1" in c)
+    # an option passed to a constructor arrives in the attribute of its own name (the rules above read options through those attributes)
+    from .ctor_wiring import ctor_wiring_rules
+
+    rcw = chk.rule("R-C19-W", "constructor wiring of the Gauss-Newton routine and the MAP Taylor point: every attribute that carries a constructor parameter's name holds that parameter, not another one", floor=5)
+    ctor_wiring_rules(chk, S, rcw, [TPOINTS + ".lstsq_constrained_gauss_newton", TPOINTS + ".taylor_point_maximum_a_posteriori"])
